@@ -11,7 +11,7 @@ BAD = {101: "panic (exit 101)", -6: "SIGABRT", -11: "SIGSEGV", -4: "SIGILL", -7:
 
 def offline(ctx, res):
     recs = [r for r in res.recs if r.get("kind") in ("cli-src", "cli-json")]
-    limit = 400 if ctx["tier"] == "quick" else 6000
+    limit = 600 if ctx["tier"] == "quick" else 6000
     recs = recs[:limit]
     tmpdir = tempfile.mkdtemp(prefix="c01cli", dir=ctx["rundir"])
     runs = [0]
